@@ -2,6 +2,7 @@ import CandidModel.Proofs.SubSound
 import CandidModel.Proofs.SubComplete
 import CandidModel.Proofs.SubTrans
 import CandidModel.Proofs.EqSub
+import CandidModel.Proofs.EqTrans
 /-
   C05 — Subtype and upgrade checks decide the spec relation, independent of order and history.
   Structural facts about the specification relation, and soundness of the checking algorithm (memo table,
@@ -194,10 +195,11 @@ theorem equal_check_is_sound_after_history (env : Env) (n : Nat) (g g' : Gamma) 
     (h : eqAlg env n g a b = .yes g') : TyEq env a b ∧ EJustified env g' :=
   eqAlg_sound_history env n g g' a b hj h
 
-/-- type equality is reflexive and symmetric -/
-theorem type_equality_is_reflexive_and_symmetric (env : Env) :
-    (∀ a, TyEq env a a) ∧ (∀ a b, TyEq env a b → TyEq env b a) :=
-  ⟨tyeq_refl env, fun _ _ h => Wire.tyeq_symm h⟩
+/-- **Type equality is an equivalence relation**, over any environment (unlike subtyping, which fails transitivity at
+`null`-typed fields): reflexive, symmetric, transitive. -/
+theorem type_equality_is_an_equivalence (env : Env) :
+    (∀ a, TyEq env a a) ∧ (∀ a b, TyEq env a b → TyEq env b a) ∧ (∀ a b c, TyEq env a b → TyEq env b c → TyEq env a c) :=
+  ⟨tyeq_refl env, fun _ _ h => Wire.tyeq_symm h, fun _ _ _ h1 h2 => Wire.tyeq_trans h1 h2⟩
 
 /-- **Equal types are subtypes of each other**: over an environment whose definitions resolve and have distinct
 field ids (`GoodEnv`), for such types without function or service references within reach (`FOT`), type equality
